@@ -1007,10 +1007,69 @@ def inline_new_helpers(tree, modname):
             continue
         owner = cls_of.get(id(fn))
         helpers[(owner[0] if owner else None, nm)] = (fn, owner)
-    if not helpers:
-        return {}
     applied = {}
     counter = [0]
+    # new read-only properties that only name an expression over the object's attributes are read through
+    classes = classes_of(tree, modname)
+    by_name = {cq.rsplit(".", 1)[-1]: (cq, cn) for cq, cn in classes}
+
+    def _family(cnode):
+        """the class and the classes of this module that derive from it"""
+        out = [cnode]
+        grew = True
+        while grew:
+            grew = False
+            for _, cn in classes:
+                if cn not in out and any(isinstance(b, ast.Name) and by_name.get(b.id, (None, None))[1] in out for b in cn.bases):
+                    out.append(cn)
+                    grew = True
+        return out
+    import copy as _copy
+    for cq, cnode in classes:
+        for st in list(cnode.body):
+            if not isinstance(st, ast.FunctionDef) or [ast.unparse(d) for d in st.decorator_list] != ["property"]:
+                continue
+            if (cq + "." + st.name) in ref or len(st.args.args) != 1:
+                continue
+            body = [b for j, b in enumerate(st.body) if not (j == 0 and isinstance(b, ast.Expr) and isinstance(b.value, ast.Constant) and isinstance(b.value.value, str))]
+            if len(body) != 1 or not isinstance(body[0], ast.Return) or body[0].value is None or not _pure_expr(body[0].value):
+                continue
+            pself = st.args.args[0].arg
+            if any(isinstance(x, ast.Attribute) and x.attr == st.name for x in ast.walk(body[0].value)):
+                continue
+            # a setter / deleter of the same name makes it more than a name for the expression
+            if any(isinstance(o, ast.FunctionDef) and o is not st and o.name == st.name for o in cnode.body):
+                continue
+            for cn in _family(cnode):
+                for m in cn.body:
+                    if not isinstance(m, ast.FunctionDef) or m is st or not m.args.args or any(ast.unparse(d) in ("staticmethod", "classmethod") for d in m.decorator_list):
+                        continue
+                    mself = m.args.args[0].arg
+
+                    class P(ast.NodeTransformer):
+                        def visit_Attribute(self, node):
+                            self.generic_visit(node)
+                            if isinstance(node.ctx, ast.Load) and node.attr == st.name and isinstance(node.value, ast.Name) and node.value.id == mself:
+                                e = _copy.deepcopy(body[0].value)
+                                for x in ast.walk(e):
+                                    if isinstance(x, ast.Name) and x.id == pself:
+                                        x.id = mself
+                                applied.setdefault(cq + "." + m.name, []).append(st.name)
+                                return ast.copy_location(e, node)
+                            return node
+                    P().visit(m)
+    # the constructor of a new base class of this module is read through at super().__init__(...)
+    for cq, cnode in classes:
+        if not is_new_module_name(modname, cnode.name):
+            continue
+        for st in cnode.body:
+            if isinstance(st, ast.FunctionDef) and st.name == "__init__" and _helper_ok(st):
+                helpers[(cq, "super().__init__")] = (st, (cq, cnode))
+    if not helpers:
+        if applied:
+            ast.fix_missing_locations(tree)
+        return applied
+    cnode_of = {cq: cn for cq, cn in classes}
 
     def splice(caller_q, caller, owner_q, self_name):
         changed = True
@@ -1033,6 +1092,13 @@ def inline_new_helpers(tree, modname):
                     elif isinstance(val.func, ast.Attribute) and isinstance(val.func.value, ast.Name) and owner_q is not None:
                         if val.func.value.id == self_name or val.func.value.id == owner_q.rsplit(".", 1)[-1]:
                             key = (owner_q, val.func.attr)
+                    via_super = False
+                    if (isinstance(val.func, ast.Attribute) and val.func.attr == "__init__" and isinstance(val.func.value, ast.Call)
+                            and isinstance(val.func.value.func, ast.Name) and val.func.value.func.id == "super" and not val.func.value.args
+                            and owner_q in cnode_of and len(cnode_of[owner_q].bases) == 1 and isinstance(cnode_of[owner_q].bases[0], ast.Name)
+                            and cnode_of[owner_q].bases[0].id in by_name and caller.name == "__init__"):
+                        key = (by_name[cnode_of[owner_q].bases[0].id][0], "super().__init__")
+                        via_super = True
                     if key not in helpers:
                         continue
                     hfn, howner = helpers[key]
@@ -1043,7 +1109,7 @@ def inline_new_helpers(tree, modname):
                     bind = {}
                     pos = list(params)
                     if howner is not None and not static:
-                        if not pos or not isinstance(val.func, ast.Attribute) or val.func.value.id != self_name:
+                        if not pos or not isinstance(val.func, ast.Attribute) or not (via_super or val.func.value.id == self_name) or self_name is None:
                             continue
                         bind[pos.pop(0)] = ast.Name(id=self_name, ctx=ast.Load())
                     if len(val.args) > len(pos):
